@@ -81,6 +81,12 @@ def seeds(n):
     add(("shl-shl-yc", ["shl", ["shl", x, y], c0]))
     add(("shl-shl-cxc", ["shl", ["shl", c0, x], c1]))
     add(("shl-shl-shl", ["shl", ["shl", ["shl", x, c0], c1], c2]))
+    # a shift by a constant, shifted again by a NON-constant amount (the nested-shift rewrites read the amounts as integers)
+    for op in ("shl", "lshr", "ashr"):
+        for op2 in ("shl", "lshr", "ashr"):
+            add((f"{op}-{op2}c-y", [op, [op2, x, c0], y]))
+            add((f"{op}-{op2}c-addyc", [op, [op2, x, c0], ["add", y, c1]]))
+            add((f"{op}-{op2}c-ifcc", [op, [op2, x, c0], ["if", B, c1, c2]]))
     # ---- eq / ne
     for op in ("eq", "ne"):
         add((f"{op}-x-x", [op, x, x]))
